@@ -123,6 +123,12 @@ def deep_specs():
             yield ("HRevolve", (n, s, d) + tuple(c), (), n)
     yield ("HRevolve", (520, 2, 3, 1, 1, 2, 2), (), 520)
     yield ("Revolve", (120, 1, 1000, 1000, 2, 2), (), 120)
+    # operation lists of several thousand entries (anything windowed or chunked in the iterator)
+    yield ("Revolve", (1000, 4, 1, 1, 2, 2), (), 1000)
+    yield ("HRevolve", (500, 2, 4, 1, 1, 2, 2), (), 500)
+    yield ("DiskRevolve", (600, 2, 1, 1, 2, 2), (), 600)
+    yield ("PeriodicDiskRevolve", (600, 2, 1, 1, 2, 2), (), 600)
+    yield ("HRevolve", (300, 1, 0, 1, 1, 2, 2), (), 300)
 
 
 def seeded_specs(seed, count, nmax=400):
